@@ -885,8 +885,24 @@ int ICACHE_FLASH_ATTR supla_esp_mqtt_str2int(const char *str, uint16_t len,
     }
   }
 
+  // At least one digit is required before the dot / the end ("-", "-.5"
+  // are not numbers). Integer accumulation: pow() and the conversion of an
+  // out of range double to int are avoided, too long numbers are rejected.
+  if (_len == (minus ? 1 : 0)) {
+    if (err) {
+      *err = 1;
+    }
+    return 0;
+  }
+
   for (a = minus ? 1 : 0; a < _len; a++) {
-    result += (str[a] - '0') * pow(10, _len - 1 - a);
+    if (result > (2147483647 - 9) / 10) {
+      if (err) {
+        *err = 1;
+      }
+      return 0;
+    }
+    result = result * 10 + (str[a] - '0');
   }
 
   if (minus) {
